@@ -11,6 +11,7 @@ import (
 	"go/ast"
 	"go/constant"
 	"go/token"
+	"go/types"
 	"strings"
 )
 
@@ -75,12 +76,12 @@ func init() {
 		if err := emitEncLevelTable(c, w, wp); err != nil {
 			return err
 		}
-		w.P("/-! ### literal limits inside readNumericTransportParameter (first `if val <op> lit` of the case) -/")
+		w.P("/-! ### lower limits inside readNumericTransportParameter (the case rejects when the parsed value is below the constant) -/")
 		for _, it := range []struct{ caseConst, lean string }{
 			{"maxUDPPayloadSizeParameterID", "minMaxUDPPayloadSize"},
 			{"activeConnectionIDLimitParameterID", "minActiveConnectionIDLimit"},
 		} {
-			v, err := caseIfLiteral(c, wp, "TransportParameters", "readNumericTransportParameter", it.caseConst, token.LSS)
+			v, err := caseRejectsBelow(c, wp, "TransportParameters", "readNumericTransportParameter", it.caseConst)
 			if err != nil {
 				return err
 			}
@@ -98,7 +99,9 @@ func init() {
 	})
 }
 
-// firstIfLenGuard returns the constant C of the first `if len(x) < C` statement of a method.
+// firstIfLenGuard returns the constant C such that the first `if` statement of a method rejects exactly
+// when len(x) < C. The condition is evaluated semantically (see cmpNorm): `len(b) < C`, `C > len(b)`,
+// `!(len(b) >= C)`, `len(b) <= C-1` … with C any constant expression.
 func firstIfLenGuard(c *Ctx, p *Pkg, recv, name string) (string, error) {
 	fd := p.FuncDecl(recv, name)
 	if fd == nil || fd.Body == nil {
@@ -109,24 +112,145 @@ func firstIfLenGuard(c *Ctx, p *Pkg, recv, name string) (string, error) {
 		if !ok {
 			continue
 		}
-		be, ok := is.Cond.(*ast.BinaryExpr)
-		if !ok || be.Op != token.LSS {
-			return "", fmt.Errorf("%s.%s: first if is not `len(b) < const`", recv, name)
-		}
-		call, ok := be.X.(*ast.CallExpr)
+		v, op, k, ok := cmpNorm(p, is.Cond)
 		if !ok {
-			return "", fmt.Errorf("%s.%s: first if is not `len(b) < const`", recv, name)
+			return "", fmt.Errorf("%s.%s: first if is not a comparison of len(b) with a constant", recv, name)
 		}
-		if id, ok := call.Fun.(*ast.Ident); !ok || id.Name != "len" {
-			return "", fmt.Errorf("%s.%s: first if is not `len(b) < const`", recv, name)
-		}
-		v, ok := constOf(p, be.Y)
+		call, ok := stripConv(p, v).(*ast.CallExpr)
 		if !ok {
-			return "", fmt.Errorf("%s.%s: guard bound is not constant", recv, name)
+			return "", fmt.Errorf("%s.%s: first if is not a comparison of len(b) with a constant", recv, name)
 		}
-		return v, nil
+		if id, ok := call.Fun.(*ast.Ident); !ok || id.Name != "len" || p.Info.Uses[id] != types.Universe.Lookup("len") {
+			return "", fmt.Errorf("%s.%s: first if is not a comparison of len(b) with a constant", recv, name)
+		}
+		bound, ok := belowBound(op, k)
+		if !ok {
+			return "", fmt.Errorf("%s.%s: first if does not reject short input (`len(b) < const`)", recv, name)
+		}
+		return bound, nil
 	}
 	return "", fmt.Errorf("%s.%s: no length guard found", recv, name)
+}
+
+// ---------------------------------------------------------------- comparisons, evaluated semantically
+//
+// A bound is recognised by what the condition MEANS, not by how it is spelled: `v < c`, `c > v`,
+// `!(v >= c)`, `!(c <= v)` (and `v <= c-1` …) all say "v is below c". The constant side may be any
+// constant expression in the sense of go/types (literal, named constant of the package or of another
+// package, a constant declared locally in the function, arithmetic / conversions of those).
+
+// intConst returns the exact integer value of a constant expression.
+func intConst(p *Pkg, e ast.Expr) (constant.Value, bool) {
+	tv, ok := p.Info.Types[e]
+	if !ok || tv.Value == nil {
+		return nil, false
+	}
+	iv := constant.ToInt(tv.Value)
+	if iv.Kind() != constant.Int {
+		return nil, false
+	}
+	return iv, true
+}
+
+// stripConv removes parentheses and type conversions T(x).
+func stripConv(p *Pkg, e ast.Expr) ast.Expr {
+	for {
+		switch x := e.(type) {
+		case *ast.ParenExpr:
+			e = x.X
+			continue
+		case *ast.CallExpr:
+			if len(x.Args) == 1 {
+				if tv, ok := p.Info.Types[x.Fun]; ok && tv.IsType() {
+					e = x.Args[0]
+					continue
+				}
+			}
+		}
+		return e
+	}
+}
+
+// cmpNorm normalises a condition to `v op k` with v the non-constant operand and k an integer constant:
+// parentheses are dropped, `!` is pushed into the comparison, a constant on the left is mirrored.
+func cmpNorm(p *Pkg, e ast.Expr) (v ast.Expr, op token.Token, k constant.Value, ok bool) {
+	switch x := e.(type) {
+	case *ast.ParenExpr:
+		return cmpNorm(p, x.X)
+	case *ast.UnaryExpr:
+		if x.Op != token.NOT {
+			return nil, 0, nil, false
+		}
+		v, op, k, ok = cmpNorm(p, x.X)
+		if !ok {
+			return nil, 0, nil, false
+		}
+		neg := map[token.Token]token.Token{token.LSS: token.GEQ, token.GEQ: token.LSS, token.LEQ: token.GTR, token.GTR: token.LEQ, token.EQL: token.NEQ, token.NEQ: token.EQL}
+		return v, neg[op], k, true
+	case *ast.BinaryExpr:
+		switch x.Op {
+		case token.LSS, token.LEQ, token.GTR, token.GEQ, token.EQL, token.NEQ:
+		default:
+			return nil, 0, nil, false
+		}
+		ky, oky := intConst(p, x.Y)
+		kx, okx := intConst(p, x.X)
+		switch {
+		case oky && !okx:
+			return x.X, x.Op, ky, true
+		case okx && !oky:
+			mir := map[token.Token]token.Token{token.LSS: token.GTR, token.GTR: token.LSS, token.LEQ: token.GEQ, token.GEQ: token.LEQ, token.EQL: token.EQL, token.NEQ: token.NEQ}
+			return x.Y, mir[x.Op], kx, true
+		}
+	}
+	return nil, 0, nil, false
+}
+
+func addInt(k constant.Value, d int64) string {
+	return constant.BinaryOp(k, token.ADD, constant.MakeInt64(d)).ExactString()
+}
+
+// belowBound: `v op k` means "v < B" for integers; returns B.
+func belowBound(op token.Token, k constant.Value) (string, bool) {
+	switch op {
+	case token.LSS:
+		return k.ExactString(), true
+	case token.LEQ:
+		return addInt(k, 1), true
+	}
+	return "", false
+}
+
+// atMost: `v op k` means "v <= B" for integers; returns B.
+func atMost(op token.Token, k constant.Value) (string, bool) {
+	switch op {
+	case token.LEQ:
+		return k.ExactString(), true
+	case token.LSS:
+		return addInt(k, -1), true
+	}
+	return "", false
+}
+
+// atLeast: `v op k` means "v >= B" for integers; returns B.
+func atLeast(op token.Token, k constant.Value) (string, bool) {
+	switch op {
+	case token.GEQ:
+		return k.ExactString(), true
+	case token.GTR:
+		return addInt(k, 1), true
+	}
+	return "", false
+}
+
+// isRecv reports whether e is (a conversion of) the receiver of fd.
+func isRecv(p *Pkg, fd *ast.FuncDecl, e ast.Expr) bool {
+	id, ok := stripConv(p, e).(*ast.Ident)
+	if !ok || fd.Recv == nil || len(fd.Recv.List) != 1 || len(fd.Recv.List[0].Names) != 1 {
+		return false
+	}
+	obj := p.Info.Defs[fd.Recv.List[0].Names[0]]
+	return obj != nil && p.Info.Uses[id] == obj
 }
 
 // emitVarIntList emits a package-level `var X = []T{a, b}` of integer constants.
@@ -189,40 +313,61 @@ func singleReturn(p *Pkg, recv, name string) (ast.Expr, error) {
 	return rs.Results[0], nil
 }
 
+// singleCompare: the method is `return <recv is at most C>` (spelled `t <= C`, `C >= t`, `!(t > C)`, `t < C+1` …).
 func singleCompare(c *Ctx, p *Pkg, recv, name string, op token.Token) (string, error) {
 	e, err := singleReturn(p, recv, name)
 	if err != nil {
 		return "", err
 	}
-	be, ok := e.(*ast.BinaryExpr)
-	if !ok || be.Op != op {
+	v, o, k, ok := cmpNorm(p, e)
+	if !ok || !isRecv(p, p.FuncDecl(recv, name), v) {
+		return "", fmt.Errorf("%s.%s: expected a comparison of the receiver with a constant (`x %s const`)", recv, name, op)
+	}
+	if op != token.LEQ {
+		return "", fmt.Errorf("singleCompare: only upper bounds are supported")
+	}
+	b, ok := atMost(o, k)
+	if !ok {
 		return "", fmt.Errorf("%s.%s: expected `x %s const`", recv, name, op)
 	}
-	v, ok := constOf(p, be.Y)
-	if !ok {
-		return "", fmt.Errorf("%s.%s: right operand is not constant", recv, name)
-	}
-	return v, nil
+	return b, nil
 }
 
+// rangeCompare: the method is `return <recv at least A> && <recv at most B>`, conjuncts in either order and
+// each spelled in any of the equivalent ways cmpNorm understands.
 func rangeCompare(c *Ctx, p *Pkg, recv, name string) (string, string, error) {
 	e, err := singleReturn(p, recv, name)
 	if err != nil {
 		return "", "", err
 	}
+	for {
+		pe, ok := e.(*ast.ParenExpr)
+		if !ok {
+			break
+		}
+		e = pe.X
+	}
 	be, ok := e.(*ast.BinaryExpr)
 	if !ok || be.Op != token.LAND {
 		return "", "", fmt.Errorf("%s.%s: expected `t >= a && t <= b`", recv, name)
 	}
-	l, ok1 := be.X.(*ast.BinaryExpr)
-	r, ok2 := be.Y.(*ast.BinaryExpr)
-	if !ok1 || !ok2 || l.Op != token.GEQ || r.Op != token.LEQ {
-		return "", "", fmt.Errorf("%s.%s: expected `t >= a && t <= b`", recv, name)
+	fd := p.FuncDecl(recv, name)
+	var lo, hi string
+	for _, side := range []ast.Expr{be.X, be.Y} {
+		v, o, k, ok := cmpNorm(p, side)
+		if !ok || !isRecv(p, fd, v) {
+			return "", "", fmt.Errorf("%s.%s: expected `t >= a && t <= b` with constant bounds", recv, name)
+		}
+		if b, ok := atLeast(o, k); ok && lo == "" {
+			lo = b
+		} else if b, ok := atMost(o, k); ok && hi == "" {
+			hi = b
+		} else {
+			return "", "", fmt.Errorf("%s.%s: expected `t >= a && t <= b`", recv, name)
+		}
 	}
-	lo, ok1 := constOf(p, l.Y)
-	hi, ok2 := constOf(p, r.Y)
-	if !ok1 || !ok2 {
-		return "", "", fmt.Errorf("%s.%s: bounds are not constant", recv, name)
+	if lo == "" || hi == "" {
+		return "", "", fmt.Errorf("%s.%s: expected one lower and one upper bound", recv, name)
 	}
 	return lo, hi, nil
 }
@@ -455,15 +600,81 @@ func evalBool(p *Pkg, recv string, e ast.Expr, t int64, depth int) (bool, error)
 	return false, fmt.Errorf("unsupported boolean expression")
 }
 
-// caseIfLiteral finds, in method recv.name, the switch clause listing constant
-// caseConst and returns the literal L of its first `if val <op> L` statement.
-func caseIfLiteral(c *Ctx, p *Pkg, recv, name, caseConst string, op token.Token) (string, error) {
+// parsedValueVar returns the variable that receives the value of `quicvarint.Parse(…)` in fd (nil if the
+// function has no such assignment).
+func parsedValueVar(p *Pkg, fd *ast.FuncDecl) types.Object {
+	var obj types.Object
+	ast.Inspect(fd.Body, func(n ast.Node) bool {
+		as, ok := n.(*ast.AssignStmt)
+		if !ok || obj != nil || len(as.Rhs) != 1 || len(as.Lhs) < 1 {
+			return true
+		}
+		call, ok := as.Rhs[0].(*ast.CallExpr)
+		if !ok {
+			return true
+		}
+		sel, ok := call.Fun.(*ast.SelectorExpr)
+		if !ok || sel.Sel.Name != "Parse" {
+			return true
+		}
+		fn, ok := p.Info.Uses[sel.Sel].(*types.Func)
+		if !ok || fn.Pkg() == nil || !strings.HasSuffix(fn.Pkg().Path(), "/quicvarint") {
+			return true
+		}
+		if id, ok := as.Lhs[0].(*ast.Ident); ok {
+			if o := p.Info.Defs[id]; o != nil {
+				obj = o
+			} else {
+				obj = p.Info.Uses[id]
+			}
+		}
+		return true
+	})
+	return obj
+}
+
+// rejects reports whether a statement list ends by returning (the `if` is a rejection, not a clamp).
+func rejects(body *ast.BlockStmt) bool {
+	if body == nil || len(body.List) == 0 {
+		return false
+	}
+	_, ok := body.List[len(body.List)-1].(*ast.ReturnStmt)
+	return ok
+}
+
+// caseRejectsBelow finds, in method recv.name, the switch clause listing constant caseConst and returns
+// the constant B such that the clause's first rejecting `if` on the parsed value fires exactly when the
+// value is below B. The condition is evaluated semantically (cmpNorm): `val < B`, `B > val`, `!(val >= B)`,
+// `val <= B-1`, with B any constant expression (literal, named, local or package level); the name of the
+// value variable does not matter (it is the variable assigned from quicvarint.Parse, or, when the function
+// has no such assignment, any non-constant integer variable).
+func caseRejectsBelow(c *Ctx, p *Pkg, recv, name, caseConst string) (string, error) {
 	fd := p.FuncDecl(recv, name)
-	if fd == nil {
+	if fd == nil || fd.Body == nil {
 		return "", fmt.Errorf("%s.%s not found", recv, name)
 	}
+	want := p.Types.Scope().Lookup(caseConst)
+	if want == nil {
+		return "", fmt.Errorf("%s.%s: constant %s not found", recv, name, caseConst)
+	}
+	valVar := parsedValueVar(p, fd)
+	isVal := func(e ast.Expr) bool {
+		id, ok := stripConv(p, e).(*ast.Ident)
+		if !ok {
+			return false
+		}
+		v, ok := p.Info.Uses[id].(*types.Var)
+		if !ok {
+			return false
+		}
+		if valVar != nil {
+			return v == valVar
+		}
+		b, ok := v.Type().Underlying().(*types.Basic)
+		return ok && b.Info()&types.IsInteger != 0
+	}
 	var out string
-	var found bool
+	var found, sawCase bool
 	ast.Inspect(fd.Body, func(n ast.Node) bool {
 		cc, ok := n.(*ast.CaseClause)
 		if !ok || found {
@@ -471,31 +682,35 @@ func caseIfLiteral(c *Ctx, p *Pkg, recv, name, caseConst string, op token.Token)
 		}
 		hit := false
 		for _, e := range cc.List {
-			if id, ok := e.(*ast.Ident); ok && id.Name == caseConst {
+			if id, ok := stripConv(p, e).(*ast.Ident); ok && p.Info.Uses[id] == want {
 				hit = true
 			}
 		}
 		if !hit {
 			return true
 		}
+		sawCase = true
 		for _, s := range cc.Body {
 			is, ok := s.(*ast.IfStmt)
-			if !ok {
+			if !ok || is.Init != nil || !rejects(is.Body) {
 				continue
 			}
-			be, ok := is.Cond.(*ast.BinaryExpr)
-			if !ok || be.Op != op {
+			v, op, k, ok := cmpNorm(p, is.Cond)
+			if !ok || !isVal(v) {
 				continue
 			}
-			if v, ok := constOf(p, be.Y); ok {
-				out, found = v, true
+			if b, ok := belowBound(op, k); ok {
+				out, found = b, true
 				break
 			}
 		}
 		return true
 	})
+	if !sawCase {
+		return "", fmt.Errorf("%s.%s: no case %s", recv, name, caseConst)
+	}
 	if !found {
-		return "", fmt.Errorf("%s.%s: case %s has no `if val %s literal`", recv, name, caseConst, op)
+		return "", fmt.Errorf("%s.%s: case %s has no rejection of values below a constant (`if val < const { return … }`)", recv, name, caseConst)
 	}
 	return out, nil
 }
